@@ -254,8 +254,9 @@ def pin_guard(p, dec):
     skip = mac = None
     n = 0
     for k, v in dec:
-        is_skip = "contains_skip(arg1.attrs" in k
-        is_mac = "contains_macro_use_attr(arg1)" in k or ("contains_name(" in k and "macro_use" in k)
+        is_skip = "contains_skip(" in k and "arg1" in k.split("contains_skip(", 1)[1]
+        is_mac = ("contains_macro_use_attr(" in k and "arg1" in k.split("contains_macro_use_attr(", 1)[1]) or (
+            "contains_name(" in k and "macro_use" in k)
         if (is_skip or is_mac) and "BitAnd" not in k and "!" not in k:
             n += 1
             if v is True and not (is_skip and is_mac and "BitOr" not in k):
@@ -269,8 +270,8 @@ def pin_guard(p, dec):
         if k.endswith("(arg1)") and isinstance(v, bool):
             name = k[:-len("(arg1)")]
             hs = [h for h in p.by_crate["rustfmt_nightly"] if h.id.endswith(name) and h.kind != "Closure"]
-            if len(hs) == 1 and false_answer_implies_false(p, hs[0], ["contains_skip(arg1.attrs"]) and (
-                    false_answer_implies_false(p, hs[0], ["contains_macro_use_attr(arg1)"])
+            if len(hs) == 1 and false_answer_implies_false(p, hs[0], ["contains_skip("]) and (
+                    false_answer_implies_false(p, hs[0], ["contains_macro_use_attr("])
                     or false_answer_implies_false(p, hs[0], ["macro_use"])):
                 n += 1
                 if v is True:
